@@ -7,6 +7,7 @@ import { toEjson, fromEjson, valueClass, show } from "../lib/ejson.mjs";
 import { renderProgram, renderType, mapType } from "../gen/ast.mjs";
 import { ALL_REWRITES, HASH_PRESERVING, applySteps } from "../gen/rewrite.mjs";
 import { Rng } from "../lib/rng.mjs";
+import { isCyclic } from "../lib/deep.mjs";
 import { coreKinds } from "../gen/typegen.mjs";
 import { nameHashDifference } from "../lib/rtdiff.mjs";
 import { compileText } from "../lib/util.mjs";
@@ -92,7 +93,7 @@ export async function compare(ctx, prog, steps, pools /* Map parserName -> value
     if (i >= 0) faults.push({ clause: "verdicts-differ", parser: ps.name, value: vals[i], detail: `original ${v1[i]} rewritten ${v2[i]} on ${show(vals[i])}` });
     const d1 = digest(p1),
       d2 = digest(p2);
-    if (hashComparable && d1.h256 !== d2.h256) faults.push({ clause: "hash256-differs", parser: ps.name, cause: nameHashDifference(p1, p2), detail: `${d1.h256.slice(0, 16)} vs ${d2.h256.slice(0, 16)}` });
+    if (hashComparable && d1.h256 !== d2.h256) faults.push({ clause: "hash256-differs", parser: ps.name, cause: ((c) => (c === "identical-modulo-refs" && coreKinds(prog.env, prog.cores.get(ps.name)).has("recursive") ? c + ":recursive" : c))(nameHashDifference(p1, p2)), detail: `${d1.h256.slice(0, 16)} vs ${d2.h256.slice(0, 16)}` });
   }
   return { applied, text2, faults, prog2 };
 }
@@ -106,7 +107,7 @@ export async function run(ctx) {
     for (const ps of prog.parsers) {
       const core = prog.cores.get(ps.name);
       kindsHistogram(ctx, prog.env, core);
-      pools.set(ps.name, valuesFor(item, core, { members: 8, mutantsPer: 2, hostile: true }).map((x) => x.v));
+      pools.set(ps.name, valuesFor(item, core, { members: 8, mutantsPer: 2, hostile: true }).map((x) => x.v).filter((v) => !isCyclic(v)));
     }
     for (let round = 0; round < 3; round++) {
       const rng = item.rng.fork("rewrite" + round);
